@@ -45,6 +45,22 @@ Slice(s, a, b)  == LET lo == SliceLo(a, Len(s)) hi == SliceHi(b, Len(s))
                    IN IF lo < hi THEN SubSeq(s, lo + 1, hi) ELSE <<>>
 DelSlice(s, a, b) == LET lo == SliceLo(a, Len(s)) hi == SliceHi(b, Len(s))
                      IN IF lo < hi THEN SubSeq(s, 1, lo) \o SubSeq(s, hi + 1, Len(s)) ELSE s
+\* extended slices s[a:b:st] (st # 0): the zero-based positions a Python slice selects, in its order
+StepIdx(a, b, st, n) ==
+    IF st > 0 THEN
+        LET lo == SliceLo(a, n)  hi == SliceHi(b, n)
+            cnt == IF lo < hi THEN (hi - lo + st - 1) \div st ELSE 0
+        IN [i \in 1..cnt |-> lo + (i - 1) * st]
+    ELSE
+        LET start == IF a = NoArg THEN n - 1 ELSE IF a < 0 THEN Max(a + n, -1) ELSE Min(a, n - 1)
+            stop  == IF b = NoArg THEN -1 ELSE IF b < 0 THEN Max(b + n, -1) ELSE Min(b, n - 1)
+            cnt   == IF start > stop THEN (start - stop + (-st) - 1) \div (-st) ELSE 0
+        IN [i \in 1..cnt |-> start + (i - 1) * st]
+SliceStep(s, a, b, st) == LET ix == StepIdx(a, b, st, Len(s)) IN [i \in 1..Len(ix) |-> s[ix[i] + 1]]
+DelStep(s, a, b, st) ==
+    LET D == Range(StepIdx(a, b, st, Len(s)))
+        F[i \in 0..Len(s)] == IF i = 0 THEN <<>> ELSE IF (i - 1) \in D THEN F[i - 1] ELSE Append(F[i - 1], s[i])
+    IN F[Len(s)]
 InsertAt(s, i, r) == LET j == InsPos(i, Len(s))
                      IN SubSeq(s, 1, j) \o <<r>> \o SubSeq(s, j + 1, Len(s))
 RemoveAt(s, j)  == SubSeq(s, 1, j - 1) \o SubSeq(s, j + 1, Len(s))     \* j one-based
@@ -107,6 +123,7 @@ DelItemOutcomes(s, i) ==
     ELSE Same(s, {<<"IndexError">>})
 
 DelSliceOutcomes(s, a, b) == {Out(<<"None">>, DelSlice(s.rows, a, b), s.ver)}
+DelStepOutcomes(s, a, b, st) == {Out(<<"None">>, DelStep(s.rows, a, b, st), s.ver)}     \* del g[a:b:st]
 
 PopOutcomes(s, i) ==     \* i = NoArg: pop()
     LET j == IF i = NoArg THEN -1 ELSE i
@@ -162,6 +179,7 @@ Outcomes(s, o) ==
       [] o.name = "setitem"  -> SetItemOutcomes(s, o.i, o.r)
       [] o.name = "delitem"  -> DelItemOutcomes(s, o.i)
       [] o.name = "delslice" -> DelSliceOutcomes(s, o.a, o.b)
+      [] o.name = "delstep"  -> DelStepOutcomes(s, o.a, o.b, o.st)
       [] o.name = "pop"      -> PopOutcomes(s, o.i)
       [] o.name = "remove"   -> RemoveOutcomes(s, o.r)
       [] o.name = "reverse"  -> ReverseOutcomes(s)
@@ -185,6 +203,7 @@ Ops ==
     \cup [name : {"delitem"}, i : IdxArgs]
     \cup [name : {"pop"}, i : IdxArgs \cup {NoArg}]
     \cup [name : {"delslice", "slice"}, a : SliceArgs, b : SliceArgs]
+    \cup [name : {"delstep"}, a : SetSliceArgs, b : SetSliceArgs, st : {-2, -1, 2}]
     \cup [name : {"setslice"}, a : SetSliceArgs, b : SetSliceArgs,
           rs : {<<>>} \cup {<<r1>> : r1 \in AnyRow} \cup {<<r1, r2>> : r1 \in SetSliceFirst, r2 \in AnyRow}]
     \cup [name : {"setslice_row"}, a : {NoArg, 0}, b : {NoArg, 1}, r : AnyRow]
